@@ -271,7 +271,7 @@ def main(run):
         else:
             run.held()
     shutil.rmtree(root, ignore_errors=True)
-    return run.finish(floor=FLOOR if run.tier == "quick" else {k: v * 8 for k, v in FLOOR.items()})
+    return run.finish(floor=FLOOR if run.tier == "quick" else {k: (v * 8 if k not in ("refused-headers", "code-equivalence") else v) for k, v in FLOOR.items()})
 
 
 def replay(run, rec):
